@@ -168,7 +168,7 @@ func gedit(args []string) error {
 	}
 	n, err := tla.ReadDump(r, func(st tla.State) error {
 		batch = append(batch, parseEditState(st))
-		if len(batch) >= 20000 {
+		if len(batch) >= 5000 {
 			flush()
 		}
 		return nil
